@@ -38,11 +38,7 @@ def uses_param(term, idx):
 
 def success_escape(fn, targets):
     """a success path entry->return avoiding `targets` blocks, or None. Error paths (Try::branch Break arms) are excluded."""
-    errs = []
-    for b, t in fn.calls():
-        ty = fn.local_ty(t["dest"]["l"])
-        if "Result<" in ty or "ControlFlow<" in ty:
-            errs.extend(A.result_flow(fn, b).err_blocks)
+    errs = list(A.error_starts(fn))
     r = A.reach(fn, [0], avoid=list(targets) + errs)
     rets = [x for x in fn.return_blocks() if x in r]
     if rets:
